@@ -4,6 +4,7 @@ package main
 // and revocation) over a scripted cursor client, driven by an op list.
 // input: "cfg maxRecords maxRate ; op ; op ..." with ops
 //   poll p | msg p o | main p o | kerr 0|1 | low p v | refresh | own p,p|- | revoke | revokex | req p f t | recv p f:t,..|- | crash
+//   refresh& (a refresh whose Unassign is a slow round trip; a directly following revoke runs beside it on another goroutine)
 //   queue p o (a record sits prefetched in the client's event queue) | handle (one iteration of the event loop on that queue)
 
 import (
@@ -11,6 +12,7 @@ import (
 	"sort"
 	"strconv"
 	"strings"
+	"time"
 
 	"github.com/confluentinc/confluent-kafka-go/kafka"
 
@@ -38,6 +40,9 @@ func genRecovery(r *rng, n int, tier string, emit func(string)) {
 		// prefetched records of the old assignment are dropped when the assignment changes, handled when it does not
 		"cfg 1000 1000 ; own 0 ; req 0 20 30 ; refresh ; queue 0 25 ; queue 0 26 ; queue 0 27 ; recv 0 3:8 ; refresh ; handle ; handle ; poll 0 ; poll 0",
 		"cfg 1000 1000 ; own 0 ; req 0 20 30 ; refresh ; queue 0 20 ; queue 0 21 ; refresh ; handle ; queue 0 35 ; queue 0 22 ; handle ; handle ; handle ; poll 0",
+		// a revocation arrives while a refresh is in its broker round trip: nothing under recovery yet (F12) / one of two partitions just completed
+		"cfg 1000 1000 ; own 0 ; req 0 10 20 ; refresh& ; revoke ; poll 0 ; poll 0",
+		"cfg 1000 1000 ; own 0,1 ; req 0 10 12 ; req 1 5 30 ; refresh ; poll 0 ; poll 0 ; msg 0 12 ; own 0,1 ; req 0 40 50 ; refresh& ; revoke ; poll 1 ; poll 0",
 		// two partitions interleaved, completion of one reassigns the other
 		"cfg 1000 1000 ; own 0,1 ; req 0 1 3 ; req 1 7 12 ; refresh ; poll 1 ; poll 0 ; poll 1 ; poll 0 ; poll 0 ; poll 1 ; poll 1 ; poll 1 ; poll 1 ; poll 1",
 	} {
@@ -114,6 +119,16 @@ func genRecovery(r *rng, n int, tier string, emit func(string)) {
 				ops = append(ops, fmt.Sprintf("req %d %d %d", p, f, f+r.pick(0, 1, 3, 6, 10)))
 			case x < 850:
 				ops = append(ops, "own "+ownAll())
+			case x < 862:
+				// a revocation arriving while a refresh is still talking to the broker
+				if r.chance(50) {
+					f := r.rangeI(0, 40)
+					ops = append(ops, fmt.Sprintf("req %d %d %d", p, f, f+r.pick(1, 3, 6, 10)))
+				}
+				if r.chance(40) {
+					ops = append(ops, "own "+ownAll())
+				}
+				ops = append(ops, "refresh&", "revoke")
 			case x < 870:
 				ops = append(ops, r.pickS("revoke", "revoke", "revokex"))
 			case x < 890:
@@ -137,6 +152,35 @@ func genRecovery(r *rng, n int, tier string, emit func(string)) {
 		}
 		emit(strings.Join(ops, " ; "))
 	}
+}
+
+type pendingRefresh struct {
+	park        chan struct{}
+	done        chan struct{}
+	goid        int64
+	callsBefore int
+}
+
+// callsObs renders client calls as "c=<U|A|F letters> a=<last assignment>"
+func callsObs(calls []string) string {
+	if len(calls) == 0 {
+		return ""
+	}
+	letters, last := "", ""
+	for _, c := range calls {
+		if strings.HasPrefix(c, "assign ") {
+			letters += "A"
+			last = strings.TrimPrefix(c, "assign ")
+		} else if c == "unassign" {
+			letters += "U"
+		} else {
+			letters += "F"
+		}
+	}
+	if last != "" {
+		return "c=" + letters + " a=" + last
+	}
+	return "c=" + letters
 }
 
 type recoveryRig struct {
@@ -178,6 +222,32 @@ func execRecovery(input string) string {
 	g := newRecoveryRig(maxRec, maxRate, true)
 	var topicLog []fbcontext.Message // everything on the message topic, in order
 	var outs []string
+	var pending *pendingRefresh
+	// fixPending fills in the observation of a finished "refresh&": the client calls its goroutine made
+	fixPending := func() {
+		if pending == nil {
+			return
+		}
+		g.client.mu.Lock()
+		var mine []string
+		for i := pending.callsBefore; i < len(g.client.calls); i++ {
+			if i < len(g.client.callGoids) && g.client.callGoids[i] == pending.goid {
+				mine = append(mine, g.client.calls[i])
+			}
+		}
+		g.client.mu.Unlock()
+		obs := callsObs(mine)
+		if obs == "" {
+			obs = "."
+		}
+		for i := len(outs) - 1; i >= 0; i-- {
+			if outs[i] == "@pending" {
+				outs[i] = obs
+				break
+			}
+		}
+		pending = nil
+	}
 	for idx, seg := range segs[1:] {
 		f := strings.Fields(seg)
 		if len(f) == 0 {
@@ -186,6 +256,14 @@ func execRecovery(input string) string {
 		pi := func(i int) int64 { v, _ := strconv.ParseInt(f[i], 10, 64); return v }
 		callsBefore := len(g.client.calls)
 		sentBefore := len(g.ctx.sent)
+		if pending != nil && f[0] != "revoke" {
+			// not followed by a revocation: let the refresh finish first, it is then an ordinary refresh
+			close(pending.park)
+			<-pending.done
+			pending.park = nil
+			fixPending()
+			callsBefore = len(g.client.calls)
+		}
 		switch f[0] {
 		case "poll":
 			p := int32(pi(1))
@@ -222,6 +300,26 @@ func execRecovery(input string) string {
 			g.client.low[int32(pi(1))] = pi(2)
 		case "refresh":
 			_ = g.rc.RefreshAssignments()
+		case "refresh&":
+			// a refresh (the 10 s ticker's, say) whose Unassign is a slow broker round trip; the next op - a revocation - arrives
+			// on another goroutine while it is under way.  Calls are attributed to the goroutine that made them.
+			park, parked, aDone := make(chan struct{}), make(chan struct{}), make(chan struct{})
+			g.client.mu.Lock()
+			g.client.parkUnassign, g.client.parked, g.client.trackGoids = park, parked, true
+			g.client.mu.Unlock()
+			pend := &pendingRefresh{park: park, done: aDone, callsBefore: callsBefore}
+			go func() {
+				pend.goid = goid()
+				_ = g.rc.RefreshAssignments()
+				close(aDone)
+			}()
+			select {
+			case <-parked:
+			case <-aDone: // nothing to change: the refresh never talks to the client
+			}
+			pending = pend
+			outs = append(outs, "@pending")
+			continue
 		case "own":
 			var tps []kafka.TopicPartition
 			if f[1] != "-" {
@@ -232,7 +330,21 @@ func execRecovery(input string) string {
 			}
 			g.rc.SetAssignedPartitions(tps)
 		case "revoke":
-			g.kc.VerifRevoke()
+			if pending != nil {
+				bDone := make(chan struct{})
+				go func() { g.kc.VerifRevoke(); close(bDone) }()
+				// give the revocation time to get as far as it can while the refresh is still in its round trip
+				select {
+				case <-bDone:
+				case <-time.After(30 * time.Millisecond):
+				}
+				close(pending.park)
+				<-pending.done
+				<-bDone
+				pending.park = nil
+			} else {
+				g.kc.VerifRevoke()
+			}
 		case "revokex":
 			// a revocation during which the main client's Unassign reports a failure: the recovery consumer must still be told
 			g.mainCl.unassignErr = true
@@ -281,25 +393,23 @@ func execRecovery(input string) string {
 			parts = append(parts, "m=["+strings.Join(mainE, ",")+"]")
 		}
 		if f[0] != "crash" {
-			newCalls := g.client.calls[callsBefore:]
-			if len(newCalls) > 0 {
-				letters := ""
-				last := ""
-				for _, c := range newCalls {
-					if strings.HasPrefix(c, "assign ") {
-						letters += "A"
-						last = strings.TrimPrefix(c, "assign ")
-					} else if c == "unassign" {
-						letters += "U"
-					} else {
-						letters += "F"
+			var newCalls []string
+			g.client.mu.Lock()
+			if pending != nil {
+				// the op that ran beside a "refresh&": its calls are those the refresh's goroutine did not make
+				for i := pending.callsBefore; i < len(g.client.calls); i++ {
+					if !(i < len(g.client.callGoids) && g.client.callGoids[i] == pending.goid) {
+						newCalls = append(newCalls, g.client.calls[i])
 					}
 				}
-				parts = append(parts, "c="+letters)
-				if last != "" {
-					parts = append(parts, "a="+last)
-				}
+			} else {
+				newCalls = append(newCalls, g.client.calls[callsBefore:]...)
 			}
+			g.client.mu.Unlock()
+			if o := callsObs(newCalls); o != "" {
+				parts = append(parts, o)
+			}
+			fixPending()
 			newSent := g.ctx.sent[sentBefore:]
 			if len(newSent) > 0 {
 				topicLog = append(topicLog, newSent...)
@@ -311,6 +421,11 @@ func execRecovery(input string) string {
 		} else {
 			outs = append(outs, strings.Join(parts, " "))
 		}
+	}
+	if pending != nil {
+		close(pending.park)
+		<-pending.done
+		fixPending()
 	}
 	// final state
 	act := g.rc.VerifActive()
